@@ -708,30 +708,54 @@ func ruleDocumentFilter(r *Run, rule string) {
 	site := w.Pos(nf.Pos()) + " NewDocumentFilter"
 	r.Check(nilOK, rule, "filter:nil-iff-empty", site, "no filter (nil) ⇔ the id list is empty", "the nil filter is not returned exactly for an empty id list")
 	r.Check(addAll && cleared, rule, "filter:holds-ids", site, "the (reset) bitmap receives every listed id", fmt.Sprintf("bitmap reset=%v, every id added=%v", cleared, addAll))
-	// IsEligible: nil ⇒ true; else Contains(bitmap, id)
-	c2 := NewCanon(w)
-	okNil, okContains := false, false
-	for _, ret := range returnsOf(el) {
-		v := ret.Results[0]
-		if cst, ok := v.(*ssa.Const); ok && cst.Value != nil && cst.Value.ExactString() == "true" {
-			okNil = guardedBy(c2, ret, func(cmp Cmp, neg bool) (bool, bool) {
-				if cmp.Op == token.EQL && (cmp.L == "P0" && cmp.R == "nil" || cmp.L == "nil" && cmp.R == "P0") {
-					return !neg, true
+	// IsEligible ⇔ filter is nil ∨ bitmap.Contains(id); ShouldSkip ⇔ ¬IsEligible — decided by evaluating both (loop-free,
+	// effect-free) bodies under the three states of (NIL, IN), however they are spelled
+	predVal := func(fn *ssa.Function, isNil, in bool) func(ssa.Value) (bool, bool) {
+		cc := NewCanon(w)
+		return func(v ssa.Value) (bool, bool) {
+			switch x := v.(type) {
+			case *ssa.BinOp:
+				l, rr := cc.S(x.X), cc.S(x.Y)
+				if (l == "P0" && rr == "nil") || (l == "nil" && rr == "P0") {
+					switch x.Op {
+					case token.EQL:
+						return isNil, true
+					case token.NEQ:
+						return !isNil, true
+					}
 				}
-				return false, false
-			})
-		}
-		if s := c2.S(v); s == roaringBitmap+"Contains(P0.bitmap,P1)" {
-			okContains = true
+			case *ssa.Call:
+				switch cc.S(x) {
+				case roaringBitmap + "Contains(P0.bitmap,P1)":
+					if isNil {
+						return false, false // dereference of a nil filter
+					}
+					return in, true
+				case "(*DocumentFilter).IsEligible(P0,P1)":
+					return isNil || in, true
+				case "(*DocumentFilter).ShouldSkip(P0,P1)":
+					return !(isNil || in), true
+				}
+			}
+			return false, false
 		}
 	}
-	r.Check(okNil && okContains, rule, "filter:eligible", w.Pos(el.Pos())+" "+w.Name(el), "eligible ⇔ filter is nil ∨ bitmap.Contains(id)", fmt.Sprintf("nil⇒true: %v, otherwise Contains(bitmap,id): %v", okNil, okContains))
-	c3 := NewCanon(w)
-	okSkip := false
-	for _, ret := range returnsOf(sk) {
-		if s := c3.S(ret.Results[0]); s == "!(*DocumentFilter).IsEligible(P0,P1)" {
-			okSkip = true
+	type st3 struct{ isNil, in bool }
+	states := []st3{{true, false}, {false, true}, {false, false}}
+	okEl, okSkip := true, true
+	var badEl, badSk []string
+	for _, st := range states {
+		got, ok := evalBoolFn(el, predVal(el, st.isNil, st.in))
+		if !ok || got != (st.isNil || st.in) {
+			okEl = false
+			badEl = append(badEl, fmt.Sprintf("nil=%v listed=%v: %v (decided=%v)", st.isNil, st.in, got, ok))
+		}
+		got, ok = evalBoolFn(sk, predVal(sk, st.isNil, st.in))
+		if !ok || got != !(st.isNil || st.in) {
+			okSkip = false
+			badSk = append(badSk, fmt.Sprintf("nil=%v listed=%v: %v (decided=%v)", st.isNil, st.in, got, ok))
 		}
 	}
-	r.Check(okSkip, rule, "filter:skip", w.Pos(sk.Pos())+" "+w.Name(sk), "skip = ¬eligible", "ShouldSkip is not the negation of IsEligible for the same id")
+	r.Check(okEl, rule, "filter:eligible", w.Pos(el.Pos())+" "+w.Name(el), "eligible ⇔ filter is nil ∨ bitmap.Contains(id) in all 3 states", "IsEligible differs from nil ∨ Contains(bitmap,id): "+strings.Join(badEl, "; "))
+	r.Check(okSkip, rule, "filter:skip", w.Pos(sk.Pos())+" "+w.Name(sk), "skip ⇔ ¬(nil ∨ listed) in all 3 states", "ShouldSkip is not the negation of IsEligible for the same id: "+strings.Join(badSk, "; "))
 }
